@@ -194,6 +194,7 @@ pub fn emit(dir: &Path) {
          }],
          head: vec![],
          is_head: false,
+         trailing_comma: false,
       };
       let rules = vec![Rule {
          heads: vec![hd("out", vec![v("a")])],
@@ -224,6 +225,7 @@ pub fn emit(dir: &Path) {
          ],
          head: vec![],
          is_head: false,
+         trailing_comma: false,
       };
       let call = |a: &str, b: &str| BodyItem::MacroCall {
          name: "mq".into(),
